@@ -596,6 +596,13 @@ class RfaMetaUnit(Unit):
                 c["k"] = rng.randrange(len(c["y"]))
                 c["delta"] = float(rng.choice([1, -1, 2, 5]))
                 c["y2"] = gens.values(rng, len(c["y"]), "int")
+                if s not in ("linadapt", "expadapt") and rng.random() < 0.3:
+                    # a closed series (last value = first value) combined with one that is not: linearity and locality must not
+                    # depend on such a coincidence in the data
+                    c["y"] = list(c["y"][:-1]) + [c["y"][0]]
+                    if c["y2"][0] == c["y2"][-1]:
+                        c["y2"][-1] = c["y2"][0] + 3.0
+                    c["k"] = rng.choice([0, len(c["y"]) - 1, c["k"]])
                 cases.append(c)
         return cases
 
